@@ -146,7 +146,7 @@ def build_program(sig, ctx_at, mode, style):
         src_f = render(params, True, is_async, False, 'f')
     ns = {'LOG': [], 'VIEWS': [], 'ViewMixin': pjrpc.server.ViewMixin, '__name__': MODULE_NAME}
     src = src_g + '\n\n' + src_f + '\n'
-    exec(compile(src, f'<{MODULE_NAME}>', 'exec'), ns)
+    exec(compile(src, f'<{MODULE_NAME}>', 'exec', dont_inherit=True), ns)
     return ns, src, params
 
 
